@@ -92,8 +92,8 @@ def plant(rng, tree, dec, integers=0.0):
     `integers`) distinct 2-4 digit integers none of which is a part of another; returns the literals"""
     lits, used, ints = [], set(), []
     for x in tree.walk():
-        if x.tag == "mn" and x.text == "@":
-            if rng.random() < integers:
+        if x.tag == "mn" and x.text in ("@", "#"):
+            if x.text == "#" or rng.random() < integers:        # '#': always an integer (rules that only fire for integers)
                 while True:
                     v = str(rng.choice([rng.randrange(12, 99), rng.randrange(102, 999), rng.randrange(1023, 9999)]))
                     if "0" not in v[-1:] and not any(v in o or o in v for o in ints) and not any(v in l for l in lits):
@@ -126,6 +126,9 @@ FIXED = [
     lambda: mrow(el("munderover", mo("∏"), mrow(mn("@"), mi("k")), mrow(mi("n"), mo("+"), mn("@"))), mi("k")),
     lambda: mrow(el("munderover", mo("∑"), mrow(mi("k"), mo("≥"), mn("@")), mn("@")), el("msub", mi("a"), mi("k"))),
     lambda: mrow(el("munder", mo("∑"), mrow(mi("k"), mo("<"), mn("@"))), mi("k"), mo("+"), el("msub", mo("∫"), mrow(mn("@"), mi("b"))), mi("x")),
+    # chains of one operator over plain integers: a rule written for `a op b` must not swallow the rest of the row
+    lambda: mrow(mn("#"), mo(":"), mn("#"), mo(":"), mn("#")), lambda: mrow(mn("#"), mo("÷"), mn("#"), mo("÷"), mn("#")), lambda: mrow(mn("#"), mo("/"), mn("#"), mo("/"), mn("#")),
+    lambda: mrow(mo("-"), mn("#"), mo("/"), mn("#"), mo("+"), mn("#"), mo("/"), mn("#")), lambda: mrow(mn("#"), mo("/"), mn("#"), mi("x")),
     lambda: el("mroot", mrow(mi("x"), mo("+"), mn("@")), mn("@")),
     lambda: mrow(mi("sin"), mo("⁡"), mrow(mo("("), mn("@"), mi("x"), mo(")"))),
     lambda: el("mfrac", el("mfrac", mn("@"), mn("@")), el("msup", mn("@"), mn("@"))),
